@@ -16,7 +16,8 @@ RULE = ('random operation sequences (1..25 ops) on StateTraj and LumpedStateTraj
         'the op alphabet for one input per label branch. Compared: every read against the model of the '
         'ORIGINAL input, the alias matrix (np.shares_memory between returned arrays, constructor '
         'arguments and private slots) must be empty, StateTraj(obj) is obj. Non-trivial: the history '
-        'contains a write followed by a read.')
+        'contains a write followed by a read.'
+        ' Added classes: narrow/unsigned integer arrays with > 128 states, zero-length member trajectories, other memory layouts.')
 TRUSTED = ['NumPy .copy(), arithmetic and fancy indexing allocate fresh arrays (checked by shares_memory on every run)']
 ASSUMPTIONS = ['labels within +-2^29; lumpings consistent (macro label is a function of the micro label)']
 BATCH = 500
